@@ -51,6 +51,7 @@ type phiCand struct {
 }
 
 type boundsProver struct {
+	resMemo  map[string]int
 	trueMemo map[*ssa.Function][]*cmpSummary
 	p    *Prog
 	eng  *Engine
